@@ -194,7 +194,8 @@ def i12(cx):
         FURS = roles.field_where(cx, tag, lambda t, ti: F.mentions(ti, lambda x: x['k'] == 'dyn' and any(tr['p'].endswith('Future') for tr in x['tr'])), 'timer future', unique=False)
         INTERVAL = roles.field_where(cx, tag, lambda t, ti: t['k'] == 'adt' and t['p'] == 'std::time::Duration', 'period')
         SEQ = roles.field_where(cx, tag, lambda t, ti: t['s'] == 'usize', 'sequence counter')
-        tasks = [x for x in g.nodes if x['kind'] == 'call' and x['name'] == '<fnptr>']      # (possibly inside a private helper such as run_tick())
+        from ..core import own_fnptr_call
+        tasks = [x for x in g.nodes if own_fnptr_call(x)]      # the task pointer kept in self (possibly called inside a private helper such as run_tick())
         fur_polls = {strip(x['value']) for x in g.nodes if x['kind'] == 'call' and x['name'].rsplit('::', 1)[-1] in ('poll_unpin', 'poll') and x['args']
                      and access_path(x['args'][0])[1][-1:] and access_path(x['args'][0])[1][-1] in FURS}
         # I2
